@@ -122,6 +122,189 @@ theorem registerIdentity_writes_own_token (W : World σ) (d s : Bool) (c : Calle
   | badSubject => exact Or.inl rfl
   | panicSubject => exact Or.inl rfl
 
+/-! ## identity extraction (`pki.ExtractCertificateIdentity`): the token the gate checks is the certificate's whole token -/
+theorem cut_eq_some_iff (cs a b : List Char) :
+    cut cs = some (a, b) ↔ cs = a ++ ':' :: b ∧ ':' ∉ a := by
+  induction cs generalizing a b with
+  | nil => simp [cut]
+  | cons c cs ih =>
+    unfold cut
+    by_cases hc : c = ':'
+    · subst hc
+      simp only [if_true]
+      constructor
+      · intro h; cases h; simp
+      · rintro ⟨h, hn⟩
+        cases a with
+        | nil => simp at h; simp [h]
+        | cons x a => simp at h; exact absurd (List.mem_cons.2 (Or.inl h.1)) hn
+    · simp only [hc, if_false]
+      cases hcut : cut cs with
+      | none =>
+        simp only [reduceCtorEq, false_iff]
+        rintro ⟨h, hn⟩
+        cases a with
+        | nil => simp at h; exact hc h.1
+        | cons x a =>
+          simp at h
+          have := (ih a b).2 ⟨h.2, by intro hm; exact hn (List.mem_cons_of_mem _ hm)⟩
+          simp [hcut] at this
+      | some p =>
+        obtain ⟨a', b'⟩ := p
+        have h' := (ih a' b').1 hcut
+        constructor
+        · intro h; cases h
+          refine ⟨by simp [h'.1], ?_⟩
+          intro hm
+          rcases List.mem_cons.1 hm with h1 | h1
+          · exact hc h1.symm
+          · exact h'.2 h1
+        · rintro ⟨h, hn⟩
+          cases a with
+          | nil => simp at h; exact absurd h.1 hc
+          | cons x a =>
+            simp at h
+            have := (ih a b).2 ⟨h.2, by intro hm; exact hn (List.mem_cons_of_mem _ hm)⟩
+            rw [hcut] at this
+            cases this
+            simp [h.1]
+
+theorem subjectParts_eq_some_iff (cn a b c : List Char) :
+    subjectParts cn = some (a, b, c) ↔ cn = a ++ ':' :: (b ++ ':' :: c) ∧ ':' ∉ a ∧ ':' ∉ b := by
+  unfold subjectParts
+  constructor
+  · intro h
+    cases h1 : cut cn with
+    | none => simp [h1] at h
+    | some p =>
+      obtain ⟨a', r⟩ := p
+      cases h2 : cut r with
+      | none => simp [h1, h2] at h
+      | some q =>
+        obtain ⟨b', c'⟩ := q
+        simp only [h1, h2, Option.some.injEq, Prod.mk.injEq] at h
+        obtain ⟨rfl, rfl, rfl⟩ := h
+        have e1 := (cut_eq_some_iff _ _ _).1 h1
+        have e2 := (cut_eq_some_iff _ _ _).1 h2
+        exact ⟨by rw [e1.1, e2.1], e1.2, e2.2⟩
+  · rintro ⟨rfl, ha, hb⟩
+    have e1 : cut (a ++ ':' :: (b ++ ':' :: c)) = some (a, b ++ ':' :: c) := (cut_eq_some_iff _ _ _).2 ⟨rfl, ha⟩
+    have e2 : cut (b ++ ':' :: c) = some (b, c) := (cut_eq_some_iff _ _ _).2 ⟨rfl, hb⟩
+    simp [e1, e2]
+
+theorem isUint64_no_sep (id : List Char) (h : isUint64 id = true) : ':' ∉ id := by
+  intro hm
+  simp only [isUint64, Bool.and_eq_true, List.all_eq_true] at h
+  have := h.1.2 _ hm
+  revert this
+  decide
+
+theorem subjectParts_v1 (id tok : List Char) (hid : ':' ∉ id) :
+    subjectParts (subjectV1 id tok) = some (v1Tag, id, tok) :=
+  (subjectParts_eq_some_iff _ _ _ _).2 ⟨rfl, by decide, hid⟩
+
+theorem subjectParts_v2 (id h : List Char) (hid : ':' ∉ id) :
+    subjectParts (subjectV2 id h) = some (v2Tag, id, h) :=
+  (subjectParts_eq_some_iff _ _ _ _).2 ⟨rfl, by decide, hid⟩
+
+/-- a v1 subject carries its WHOLE token, separators included: nothing is cut off. -/
+theorem v1_subject_roundtrip (id tok : List Char) (hid : isUint64 id = true) :
+    callerOfSubject (subjectV1 id tok) = .token (String.ofList tok) := by
+  simp [callerOfSubject, subjectParts_v1 id tok (isUint64_no_sep id hid), hid]
+
+theorem v2_subject_roundtrip (id h : List Char) (hid : isUint64 id = true) :
+    callerOfSubject (subjectV2 id h) = .token (String.ofList (subjectV2 id h)) := by
+  have : v2Tag ≠ v1Tag := by decide
+  simp [callerOfSubject, subjectParts_v2 id h (isUint64_no_sep id hid), hid, this]
+
+/-- conversely, whenever the extraction yields a token, the CommonName is exactly the v1 subject of that
+token (or the v2 subject that IS the token): the identity the gate checks determines the certificate's
+token completely. -/
+theorem subject_token_faithful (cn : List Char) (t : String) (h : callerOfSubject cn = .token t) :
+    (∃ id tok, isUint64 id = true ∧ cn = subjectV1 id tok ∧ t = String.ofList tok)
+    ∨ (∃ id hs, isUint64 id = true ∧ cn = subjectV2 id hs ∧ t = String.ofList cn) := by
+  unfold callerOfSubject at h
+  cases hp : subjectParts cn with
+  | none => simp [hp] at h
+  | some p =>
+    obtain ⟨v, id, tok⟩ := p
+    have e := (subjectParts_eq_some_iff _ _ _ _).1 hp
+    simp only [hp] at h
+    by_cases h1 : v = v1Tag
+    · subst h1
+      by_cases hid : isUint64 id = true
+      · simp [hid] at h
+        exact Or.inl ⟨id, tok, hid, e.1, h.symm⟩
+      · simp [hid] at h
+    · by_cases h2 : v = v2Tag
+      · subst h2
+        by_cases hid : isUint64 id = true
+        · simp [h1, hid] at h
+          exact Or.inr ⟨id, tok, hid, e.1, h.symm⟩
+        · simp [h1, hid] at h
+      · simp [h1, h2] at h
+
+
+/-- C25 through the real identity extraction: a verified v1 certificate whose token — the ENTIRE remainder
+of the CommonName after `v1:<id>:` — has no client record is refused on every gated method with the DHT
+unchanged, whatever else is registered (in particular a registered token that is a prefix of the caller's
+token up to one of its separators does not help). `id` is any separator-free text: a non-numeric id is refused too. -/
+theorem unregistered_v1_subject_refused (W : World σ) (handler : String → Caller → σ → σ × ρ)
+    (m : String) (hmem : m ∈ allMethods) (hP : m ≠ "Ping") (hR : m ≠ "RegisterIdentity")
+    (id tok : List Char) (hsep : ':' ∉ id) (st : σ)
+    (hreg : ∀ old, W.tokenRec st (String.ofList tok) ≠ .client old) :
+    ∃ code, rpc W allowList handler m (callerOfSubject (subjectV1 id tok)) st = (st, .denied code) := by
+  apply every_gated_method_refuses W handler m hmem hP hR
+  intro ha
+  cases hc : callerOfSubject (subjectV1 id tok) with
+  | token t =>
+    rw [hc] at ha
+    obtain ⟨old, hold⟩ := ha
+    by_cases hid : isUint64 id = true
+    · rw [v1_subject_roundtrip id tok hid] at hc
+      cases hc
+      exact hreg old hold
+    · simp [callerOfSubject, subjectParts_v1 id tok hsep, hid] at hc
+  | _ => rw [hc] at ha; exact ha
+
+/-- the same for v2 certificates: the token is the entire CommonName, so a subject with anything appended
+to a registered v2 subject is a different, unregistered token. -/
+theorem unregistered_v2_subject_refused (W : World σ) (handler : String → Caller → σ → σ × ρ)
+    (m : String) (hmem : m ∈ allMethods) (hP : m ≠ "Ping") (hR : m ≠ "RegisterIdentity")
+    (id hs : List Char) (hsep : ':' ∉ id) (st : σ)
+    (hreg : ∀ old, W.tokenRec st (String.ofList (subjectV2 id hs)) ≠ .client old) :
+    ∃ code, rpc W allowList handler m (callerOfSubject (subjectV2 id hs)) st = (st, .denied code) := by
+  apply every_gated_method_refuses W handler m hmem hP hR
+  intro ha
+  have h21 : v2Tag ≠ v1Tag := by decide
+  cases hc : callerOfSubject (subjectV2 id hs) with
+  | token t =>
+    rw [hc] at ha
+    obtain ⟨old, hold⟩ := ha
+    by_cases hid : isUint64 id = true
+    · rw [v2_subject_roundtrip id hs hid] at hc
+      cases hc
+      exact hreg old hold
+    · simp [callerOfSubject, subjectParts_v2 id hs hsep, hid, h21] at hc
+  | _ => rw [hc] at ha; exact ha
+
+/-- every CommonName that is neither a v1 nor a v2 subject with a numeric id is refused on every gated
+method, whatever is registered. -/
+theorem malformed_subject_refused (W : World σ) (handler : String → Caller → σ → σ × ρ)
+    (m : String) (hmem : m ∈ allMethods) (hP : m ≠ "Ping") (hR : m ≠ "RegisterIdentity")
+    (cn : List Char) (st : σ)
+    (h1 : ∀ id tok, isUint64 id = true → cn ≠ subjectV1 id tok)
+    (h2 : ∀ id hs, isUint64 id = true → cn ≠ subjectV2 id hs) :
+    ∃ code, rpc W allowList handler m (callerOfSubject cn) st = (st, .denied code) := by
+  apply every_gated_method_refuses W handler m hmem hP hR
+  intro ha
+  cases hc : callerOfSubject cn with
+  | token t =>
+    rcases subject_token_faithful cn t hc with ⟨id, tok, hid, e, _⟩ | ⟨id, hs, hid, e, _⟩
+    · exact h1 id tok hid e
+    · exact h2 id hs hid e
+  | _ => rw [hc] at ha; exact ha
+
 /-! ## non-vacuity: a concrete DHT (association list token ↦ record) -/
 
 private def W0 : World (List (String × TokenRec)) where
@@ -141,5 +324,20 @@ example : (rpc W0 allowList h0 "Sign" .noCert st0).1 = st0 := by decide
 example : (rpc W0 allowList h0 "Ping" .noCert st0).1 = ("evil", .client false) :: st0 := by decide
 example : authorized W0 st0 (.token "alice") := ⟨false, by decide⟩
 example : (gate W0 allowList "GetNodes" (.token "old") st0) = (("old", .client false) :: st0, none) := by decide
+
+/-! non-vacuity of the extraction theorems: `alice` is registered, `alice:other` / `alice:` / `:alice` are not -/
+private def cs (s : String) : List Char := s.toList
+
+example : isUint64 (cs "42") = true ∧ isUint64 (cs "18446744073709551615") = true
+    ∧ isUint64 (cs "18446744073709551616") = false ∧ isUint64 (cs "") = false ∧ isUint64 (cs "+1") = false := by decide
+example : callerOfSubject (cs "v1:42:alice:other") = .token "alice:other" := by decide
+example : callerOfSubject (cs "v1:42::") = .token ":" := by decide
+example : callerOfSubject (cs "v2:42:aGFzaA==:x") = .token "v2:42:aGFzaA==:x" := by decide
+example : callerOfSubject (cs "v1:42") = .badSubject ∧ callerOfSubject (cs "v1:x:t") = .panicSubject
+    ∧ callerOfSubject (cs "v3:1:t") = .badSubject := by decide
+example : (rpc W0 allowList h0 "GenerateHostname" (callerOfSubject (cs "v1:42:alice")) st0).1
+    = ("evil", .client false) :: st0 := by decide
+example : (rpc W0 allowList h0 "GenerateHostname" (callerOfSubject (cs "v1:42:alice:other")) st0).1 = st0 := by decide
+example : ∀ old, W0.tokenRec st0 (String.ofList (cs "alice:other")) ≠ .client old := by decide
 
 end Specter.C25
